@@ -423,13 +423,17 @@ func (p *parser) countCaptures() error {
 						p.moveRight(1)
 						ch = p.rightChar(0)
 
-						if ch != '0' && p.isGroupNameStartChar(ch) {
-							if ch >= '1' && ch <= '9' && !p.useOptionE() {
+						if (ch != '0' || !p.useOptionE()) && p.isGroupNameStartChar(ch) {
+							if ch >= '0' && ch <= '9' && !p.useOptionE() {
+								// a number, also when written with leading zeros: the main parse
+								// reads (?<01>..) as group 1, so the pre-scan has to count it too
 								dec, err := p.scanDecimal()
 								if err != nil {
 									return err
 								}
-								if p.maintainCaptureOrder {
+								if dec == 0 {
+									// (?<0>..) is rejected by the main parse
+								} else if p.maintainCaptureOrder {
 									if err = p.noteCaptureName(strconv.Itoa(dec), pos); err != nil {
 										return err
 									}
@@ -450,7 +454,7 @@ func (p *parser) countCaptures() error {
 						// RE2-compat (?P<)
 						p.moveRight(2)
 						ch = p.rightChar(0)
-						if ch >= '1' && ch <= '9' && !p.maintainCaptureOrder && p.digitsUpTo('>') {
+						if ch >= '0' && ch <= '9' && !p.maintainCaptureOrder && p.digitsUpTo('>') {
 							// (?P<1>...) names the group by its number, exactly like (?<1>...):
 							// the main parse resolves the name "1" to group number 1, so
 							// the pre-scan must not reserve a second slot for it
@@ -458,7 +462,9 @@ func (p *parser) countCaptures() error {
 							if err != nil {
 								return err
 							}
-							p.noteCaptureSlot(dec, pos)
+							if dec != 0 { // (?P<0>..) is rejected by the main parse
+								p.noteCaptureSlot(dec, pos)
+							}
 						} else if IsWordChar(ch) {
 							capname, err := p.scanCapname()
 							if err != nil {
@@ -1243,9 +1249,14 @@ func (p *parser) scanGroupOpen() (*RegexNode, error) {
 
 					if p.isCaptureName(capname) {
 						capnum = p.captureSlotFromName(capname)
-					} else if n, err := strconv.Atoi(capname); err == nil && n > 0 && capname[0] != '0' && p.isCaptureSlot(n) {
-						// a name that is a number is that group number, as in (?<1>...)
-						capnum = n
+					} else if n, err := strconv.Atoi(capname); err == nil && !p.maintainCaptureOrder {
+						// a name that is a number is that group number, as in (?<1>...) and (?<01>...)
+						if n == 0 {
+							return nil, p.getErr(ErrCapNumNotZero)
+						}
+						if p.isCaptureSlot(n) {
+							capnum = n
+						}
 					}
 
 					// check if we have bogus character after the name
